@@ -8,7 +8,7 @@ A = {
     "A2": "A2 std contracts beyond vstd: HashMap::get_mut, obeys_key_model for Uuid and (Uuid,Uuid), derived Clone of Client/Version/Snapshot returns an equal value, Vec<u8>::clone/to_vec preserve contents",
     "A3": "A3 std::sync::Mutex: lock() gives exclusive access until the guard drops; not modelled (rule E11 replaces MutexGuard<Inner> by Inner)",
     "A4": "A4 Rust semantics used by rule E9: `let mut txn = e?; rest` is equivalent to passing txn by unique reference to `rest` and dropping it afterwards",
-    "A5": "A5 SQLite/rusqlite: BEGIN IMMEDIATE excludes other writers until COMMIT/close; closing a connection with an open transaction rolls it back; WAL + default synchronous make COMMIT atomic and durable (none of this is checked here)",
+    "A5": "A5 SQLite/rusqlite: what each SQL statement does with the values bound to it and which row a query returns (unit U6 proves WHICH values the Rust code binds and how it decodes a row, not what the SQL does with them); ToSql / FromSql of the integer and blob types; BEGIN IMMEDIATE excludes other writers until COMMIT/close; closing a connection with an open transaction rolls it back; WAL + default synchronous make COMMIT atomic and durable (none of this is checked here)",
     "A6": "A6 conversions: From<anyhow::Error> for ServerError (thiserror #[from]) yields Other(e); From<T> for T is identity (stand-in trait VerifFrom)",
     "A7": "A7 #[derive(PartialOrd, Ord)] on SnapshotUrgency orders by declaration (None < Low < High) and std::cmp::max returns a maximal argument",
     "A8": "A8 histories: fewer than u32::MAX versions are accepted between two snapshots of one client (the in-memory counter increment is unchecked)",
@@ -253,10 +253,10 @@ def _configure():
         legs=[EXPLORE, SQLCONF])
     cfg("C10", "proof", ["A4", "A6", "A10", "A11", "A13"], not_reached=[NR_SQL],
         explanation="acceptance predicate snap_should_accept written from the statement (literal 5; corner v = non-nil base left free); loop invariant of the bounded walk; declined => untouched; success either way",
-        legs=[EXPLORE, SQLCONF, XCHECK])
+        legs=[EXPLORE, SQLCONF, INTERLEAVE, XCHECK])
     cfg("C11", "proof", ["A4", "A6", "A13"], not_reached=[NR_SQL, "schedules (AddSnapshot overlapping GetSnapshot) only via C03's reduction"],
         explanation="gs.pair / gs.none (id and bytes of the stored snapshot, both written by one set_snapshot call: snap.applied), chain_wf's snapshot conjunct (snapshot version on the chain or its base) preserved by every operation, walk lemma L.snap_base",
-        legs=[EXPLORE, SQLCONF, HTTP, XCHECK])
+        legs=[EXPLORE, SQLCONF, HTTP, INTERLEAVE, XCHECK])
     cfg("C12", "proof", ["A7", "A8", "A10", "A12", "A13"], assumptions=[A["A7"], A["A8"]], not_reached=[NR_SQL, "the wall clock (A10)", "configuration wiring in main (C17)"],
         explanation="threshold functions equal floor(3t/2)/t spec for ALL targets without overflow (Verus over all i64/u32), urgency = max of both from the pre-request record (av.urgency), counter bumped by add_version_spec and reset by new_snap (storage contract)",
         legs=[EXPLORE, KANI_URGENCY, SQLCONF, STANDINS, XCHECK])
